@@ -168,6 +168,19 @@ impl PhysMem {
 }
 
 pub fn junk(pa: u64, i: usize) -> u64 {
-    // non-zero, looks like a present entry pointing somewhere wild
-    0xa5a5_0000_0000_0067 ^ (pa.rotate_left(7)) ^ ((i as u64) << 12) | 1
+    // Never zero.  The pattern depends on the frame: entries that look like present pointers to
+    // wild frames, all-even words (no PRESENT bit anywhere), a constant fill, or mixed garbage.
+    let x = 0xa5a5_0000_0000_0067 ^ (pa.rotate_left(7)) ^ ((i as u64) << 12);
+    match (pa >> 12).wrapping_mul(0x9e37) >> 3 & 3 {
+        0 => x | 1,
+        1 => (x & !1) | 2,
+        2 => 0xaaaa_aaaa_aaaa_aaaa,
+        _ => {
+            if i % 2 == 0 {
+                x | 1
+            } else {
+                0x5a5a_5a5a_5a5a_5a5a
+            }
+        }
+    }
 }
